@@ -245,3 +245,7 @@ def run(ck):
     # the position a correct diff names is probed first and accepted whenever the old side is there (matches() refuses without
     # comparing only inadmissible positions - an empty old side at the very end of the file is admissible); scan order as in C02
     c02.r4(ck_alias(ck, "C01-R5"))
+    # a side of the diff is absent exactly when its header names /dev/null: the names a file patch carries are the names of the header
+    # lines (C16-R4) - nothing else (a time stamp, a mode line) makes a name disappear
+    from . import c16
+    c16.r4(ck_alias(ck, "C01-R7"))
